@@ -438,6 +438,42 @@ def r11_own_groups(ctx):
     ctx.need('R11.own-groups', 1)
 
 
+def r12_request_identity(ctx):
+    """R12: a request is itself and nothing else: the batch code separates the synchronised from the simple requests, removes
+    candidates and looks requests up with `in` / `index` / `remove` / dict keys on PathRequest objects, which is only right while
+    two DIFFERENT requests never compare equal - PathRequest keeps Python's identity comparison, or an `__eq__` that reads nothing
+    but the request id (an `__eq__` on the demand makes a request be treated like its same-demand twin in the batch)"""
+    repo = ctx.repo
+    c = repo.cls('PathRequest', 'gnpy.topology.request')
+    sites = 0
+    for k in repo.mro(c):
+        for nm in ('__eq__', '__hash__', '__ne__'):
+            m = k.methods.get(nm)
+            if m is None:
+                continue
+            sites += 1
+            reads, todo, seen = set(), [m], set()
+            while todo:
+                g = todo.pop()
+                if g.qual in seen:
+                    continue
+                seen.add(g.qual)
+                for x in ast.walk(g.node):
+                    if isinstance(x, ast.Attribute) and isinstance(x.value, ast.Name) and x.value.id in (g.params[:1] + g.params[1:2]):
+                        h = k.methods.get(x.attr)
+                        if h is not None:
+                            todo.append(h)
+                        else:
+                            reads.add(x.attr)
+            ctx.check('R12.request-identity', f'{site(m)}', reads <= {'request_id'}, key(m, 'identity'),
+                      f'{k.name}.{nm} compares requests by {sorted(reads)}: two different requests of one batch can be equal, so the '
+                      'membership tests / removals of the disjunction and aggregation code treat a request like another one - its '
+                      'result then depends on which other requests are in the batch')
+    if not sites:
+        ctx.check('R12.request-identity', f'{c.qual} identity comparison', True, f'{c.qual}|identity', '')
+    ctx.need('R12.request-identity', 1)
+
+
 from ..memo import rule_for as _memo_rule
 
 RULES_MEMO = ('Rm.memo', _memo_rule('C16', 'requests would share a result'))
@@ -447,4 +483,4 @@ from ..presence import rule_for as _presence_rule
 
 RULES_PRESENCE = ('Rp.presence', _presence_rule('C16', 'a legal zero would be read as missing'))
 
-RULES = [('R5.memo', r5_memo), ('R1.isolation', r1_isolation), ('R2.no-leak', r2_no_leak), ('R3.redesign', r3_redesign), ('R4.shared', r4_shared), RULES_MEMO, RULES_PRESENCE, ('R6.carried', r6_carried), ('R7.defaults', r7_defaults), ('Re.for-each', re_foreach), ('Ra.alias-mutation', ra_alias), ('R8.same-request', r8_same_request), ('Rn.arg-roles', rn_arg_roles), ('R9.spectrum-commit', r9_spectrum_commit), ('R10.dispatch', r10_dispatch), ('R11.own-groups', r11_own_groups)]
+RULES = [('R5.memo', r5_memo), ('R1.isolation', r1_isolation), ('R2.no-leak', r2_no_leak), ('R3.redesign', r3_redesign), ('R4.shared', r4_shared), RULES_MEMO, RULES_PRESENCE, ('R6.carried', r6_carried), ('R7.defaults', r7_defaults), ('Re.for-each', re_foreach), ('Ra.alias-mutation', ra_alias), ('R8.same-request', r8_same_request), ('Rn.arg-roles', rn_arg_roles), ('R9.spectrum-commit', r9_spectrum_commit), ('R10.dispatch', r10_dispatch), ('R11.own-groups', r11_own_groups), ('R12.request-identity', r12_request_identity)]
